@@ -1,10 +1,13 @@
 (* EVERY SCHEDULE of a level-structured protocol with wildcard receives (semantics: MPI/SemAny.v).
 
    Setting.  Every rank r runs a program `P r`.  The protocol has NL levels, executed in the order 0 .. NL-1; level l uses the
-   tag `tagof l`, the tags of different levels differ.  At level l rank r first sends the messages `sends r l` (destination,
-   contents; at most one per destination) and then receives one message from every rank in `srcs r l`, by receives that are
-   wildcards (Recv ANY) or - where `named r l i` holds for the i-th receive of the level - name their source.  MATCHING: q sends
-   to r at level l exactly if q is in `srcs r l`; the message is `wire l q r`.
+   tag `tagof l`.  At level l rank r first sends the messages `sends r l` (destination, contents; at most one per destination)
+   and then receives one message from every rank in `srcs r l`, by receives that are wildcards (Recv ANY) or - where
+   `named r l i` holds for the i-th receive of the level - name their source.  MATCHING: q sends to r at level l exactly if q is
+   in `srcs r l`; the message is `wire l q r`.
+   TAGS (hypothesis Hcompat).  The tags of different levels may differ pairwise (one call of an algorithm: lemma
+   compat_of_injective), or two levels p < p' may SHARE a tag (consecutive calls with the same tags); then the later level must
+   have no source the earlier one does not have, and the earlier level may use a wildcard only for its FIRST receive.
    The only thing assumed about the programs is the ROUND PROPERTY (hypothesis Hround; for the notify algorithms this is the
    conclusion of the round-semantics theorems): fed with the replies of a history in which the receives of every level return
    that level's messages, each once, in SOME order `ord l` (a permutation of `srcs r l`), the program issues exactly the
@@ -19,10 +22,12 @@
 
    Proof: ghost histories.  For every rank r the invariant keeps the list `D r` of script items (sends and receives with the
    matched source) r has executed: D r is a prefix of the script of r for SOME valid order family, the program of r is P r
-   after the replies of D r, a channel (a, b, tagof l) holds exactly the message a has sent to b at level l and b has not
-   received yet.  A wildcard that matches an unexpected-order source changes the order family (lemma `reorder`), never the
-   prefix.  Progress: the rank whose next item has the least level either sends, or waits for a source that has sent already,
-   or whose next item is a send of the same level. *)
+   after the replies of D r, and the channel (a, b, t) holds, for the levels with tag t in ascending order, the messages a has
+   sent to b and b has not received yet (`chan`; FIFO).  The head of a channel is the message the receiver's CURRENT level waits
+   for (lemma head_level: earlier levels of the receiver are complete; a later level with the same tag would mean that the
+   sender has passed the current level, whose message is then still pending in front of it).  A wildcard that matches a source
+   "out of order" changes the order family (lemma `reorder`), never the prefix.  Progress: the rank whose next item has the
+   least level either sends, or waits for a source that has sent already, or whose next item is a send of the same level. *)
 From Coq Require Import ZArith Lia List Bool Permutation.
 From ScV Require Import MPI.Prog MPI.Sem MPI.SemAny.
 Import ListNotations.
@@ -111,7 +116,7 @@ Proof.
   intros y Hy. apply H. right. exact Hy.
 Qed.
 
-Lemma list_sum_le (f g : Z -> nat) l : (forall x, In x l -> (f x <= g x)%nat) -> (list_sum (map f l) <= list_sum (map g l))%nat.
+Lemma list_sum_le {A} (f g : A -> nat) l : (forall x, In x l -> (f x <= g x)%nat) -> (list_sum (map f l) <= list_sum (map g l))%nat.
 Proof.
   induction l as [|x l IH]; intros H; [apply Nat.le_refl|]. cbn [map]. rewrite !list_sum_cons.
   pose proof (H x (or_introl eq_refl)). assert (list_sum (map f l) <= list_sum (map g l))%nat by (apply IH; intros; apply H; right; assumption). lia.
@@ -166,6 +171,17 @@ Section Proto.
   Definition len (r : Z) : nat := list_sum (map (fun l => length (sends r l) + length (srcs r l))%nat (seq 0 NL)).
   Definition total_len : nat := list_sum (map len rks).
 
+  (* a closed bound on the number of steps: if a rank has at most B l sends + receives at level l *)
+  Lemma total_len_bound (B : nat -> nat) :
+    (forall r l, In r rks -> (l < NL)%nat -> (length (sends r l) + length (srcs r l) <= B l)%nat) ->
+    (total_len <= length rks * list_sum (map B (seq 0 NL)))%nat.
+  Proof.
+    intros H. unfold total_len. transitivity (list_sum (map (fun _ : Z => list_sum (map B (seq 0 NL))) rks)).
+    - apply list_sum_le. intros r Hr. unfold len. apply list_sum_le. intros l Hl. apply in_seq in Hl. apply H; [exact Hr|lia].
+    - clear H. generalize (list_sum (map B (seq 0 NL))). intros c. induction rks as [|r l IH]; [apply Nat.le_refl|].
+      cbn [map length]. rewrite list_sum_cons. change (S (length l) * c)%nat with (c + length l * c)%nat. apply Nat.add_le_mono_l. exact IH.
+  Qed.
+
   (* the replies and actions of a level's items *)
   Lemma replies_sends r l S : map (reply_of r) (map (fun dm => ISend l (fst dm) (snd dm)) S) = repeat [] (length S).
   Proof. induction S as [|x S IH]; [reflexivity|]. cbn [map length repeat reply_of]. rewrite IH. reflexivity. Qed.
@@ -178,7 +194,10 @@ Section Proto.
 
   Hypothesis Hrks : NoDup rks.
   Hypothesis Hout : forall r l, ~ In r rks -> sends r l = [] /\ srcs r l = [].
-  Hypothesis Htag : forall l1 l2, (l1 < NL)%nat -> (l2 < NL)%nat -> tagof l1 = tagof l2 -> l1 = l2.
+  (* levels may SHARE a tag (consecutive calls of an algorithm): then the later level has no source the earlier one does not
+     have, and the earlier level has at most its FIRST receive as a wildcard.  Vacuous if the tags are pairwise distinct. *)
+  Hypothesis Hcompat : forall r p p', (p < p')%nat -> (p' < NL)%nat -> tagof p = tagof p' ->
+    (forall q, In q (srcs r p') -> In q (srcs r p)) /\ (forall i, named r p i = false -> i = 0%nat).
   Hypothesis Hdst : forall r l, (l < NL)%nat -> NoDup (map fst (sends r l)).
   Hypothesis Hsrc : forall r l, (l < NL)%nat -> NoDup (srcs r l).
   Hypothesis Hsrc0 : forall r l q, (l < NL)%nat -> In q (srcs r l) -> 0 <= q.
@@ -337,6 +356,34 @@ Section Proto.
     rewrite Hm. apply Permutation_length. apply Hv. lia.
   Qed.
 
+  (* more on the order of a script *)
+  Lemma script_prefix_levels r ord dn x rem y : script r ord = dn ++ x :: rem -> In y dn -> (lev y <= lev x)%nat.
+  Proof.
+    intros H Hy. destruct (script_split _ _ _ _ _ H) as [a [b [Hl [E2 [E3 E4]]]]]. rewrite E3 in Hy. apply in_app_iff in Hy. destruct Hy as [Hy|Hy].
+    - apply flat_lev in Hy. apply in_seq in Hy. lia.
+    - assert (E : lev y = lev x) by (apply (lvl_items_lev r ord); rewrite E2; apply in_app_iff; left; exact Hy). lia.
+  Qed.
+
+  Lemma script_level_done r ord dn x rem y : script r ord = dn ++ x :: rem -> In y (script r ord) -> (lev y < lev x)%nat -> In y dn.
+  Proof.
+    intros H Hy Hlt. destruct (script_split _ _ _ _ _ H) as [a [b [Hl [E2 [E3 E4]]]]]. rewrite H in Hy. apply in_app_iff in Hy.
+    destruct Hy as [Hy|[->|Hy]]; [exact Hy|lia|exfalso]. rewrite E4 in Hy. apply in_app_iff in Hy. destruct Hy as [Hy|Hy].
+    - assert (E : lev y = lev x) by (apply (lvl_items_lev r ord); rewrite E2; apply in_app_iff; right; right; exact Hy). lia.
+    - apply flat_lev in Hy. apply in_seq in Hy. lia.
+  Qed.
+
+  (* a wildcard that is the first receive of its level: nothing of the level has been received before *)
+  Lemma script_first_recv r ord dn p q rem : script r ord = dn ++ IRecv p false q :: rem -> (forall i, named r p i = false -> i = 0%nat) ->
+    forall nm q', ~ In (IRecv p nm q') dn.
+  Proof.
+    intros H Hfirst nm q' Hin. destruct (script_split _ _ _ _ _ H) as [a [b [Hl [E2 [E3 E4]]]]]. cbn [lev] in *.
+    destruct (lvl_split _ _ _ _ _ _ E2) as [[s1 [d0 [m0 [s2 [F1 [F2 [F3 F4]]]]]]]|[o1 [q0 [o2 [F1 [F2 [F3 F4]]]]]]]; [discriminate|].
+    injection F3 as Hnm _. symmetry in Hnm. apply Hfirst in Hnm. destruct o1; [|discriminate]. cbn [mkrecvs] in F2. rewrite app_nil_r in F2.
+    rewrite E3, F2 in Hin. apply in_app_iff in Hin. destruct Hin as [Hin|Hin].
+    - apply flat_lev in Hin. cbn [lev] in Hin. apply in_seq in Hin. lia.
+    - apply in_map_iff in Hin. destruct Hin as [dm [E _]]. discriminate.
+  Qed.
+
   (* REORDERING: a wildcard may match any source of its level that has not been matched yet *)
   Lemma reorder r ord dn l q rem src : valid r ord -> script r ord = dn ++ IRecv l false q :: rem ->
     In src (srcs r l) -> (forall nm, ~ In (IRecv l nm src) dn) ->
@@ -373,30 +420,53 @@ Section Proto.
 
   Definition inv_prog (D : Z -> list item) (s : gs) : Prop :=
     forall r, exists ord rem, valid r ord /\ script r ord = D r ++ rem /\ pr s r = after (P r) (map (reply_of r) (D r)).
-  (* a non-empty channel holds one message: sent, not yet received *)
-  Definition inv_ch1 (D : Z -> list item) (s : gs) : Prop :=
-    forall a b t m q, ch s a b t = m :: q ->
-      q = [] /\ exists l, (l < NL)%nat /\ t = tagof l /\ In (ISend l b m) (D a) /\ forall nm, ~ In (IRecv l nm a) (D b).
-  (* a message that was sent has been received or is in its channel *)
-  Definition inv_ch2 (D : Z -> list item) (s : gs) : Prop :=
-    forall a b l m, In (ISend l b m) (D a) -> (exists nm, In (IRecv l nm a) (D b)) \/ ch s a b (tagof l) = [m].
+  (* the contents of a channel: for every level with the channel's tag, in the order of the levels, the message that has been
+     sent and not yet received *)
+  Definition is_send (b : Z) (p : nat) (x : item) : bool := match x with ISend l d _ => Nat.eqb l p && (d =? b) | IRecv _ _ _ => false end.
+  Definition is_recv (a : Z) (p : nat) (x : item) : bool := match x with IRecv l _ q => Nat.eqb l p && (q =? a) | ISend _ _ _ => false end.
+  Definition sentb (Da : list item) (b : Z) (p : nat) : bool := existsb (is_send b p) Da.
+  Definition rcvdb (Db : list item) (a : Z) (p : nat) : bool := existsb (is_recv a p) Db.
+  Definition pend (D : Z -> list item) (a b : Z) (p : nat) : list payload :=
+    if sentb (D a) b p && negb (rcvdb (D b) a p) then [wire p a b] else [].
+  Definition entry (D : Z -> list item) (a b t : Z) (p : nat) : list payload := if tagof p =? t then pend D a b p else [].
+  Definition chan (D : Z -> list item) (a b t : Z) : list payload := flat_map (entry D a b t) (seq 0 NL).
+  Definition inv_ch (D : Z -> list item) (s : gs) : Prop := forall a b t, ch s a b t = chan D a b t.
   (* a message that was received had been sent *)
   Definition inv_ch3 (D : Z -> list item) : Prop :=
     forall a b l nm, In (IRecv l nm a) (D b) -> exists m, In (ISend l b m) (D a).
   Definition steps_of (D : Z -> list item) : nat := list_sum (map (fun r => length (D r)) rks).
 
+
   Definition Inv (n : nat) (s : gs) : Prop :=
-    exists D, inv_prog D s /\ inv_ch1 D s /\ inv_ch2 D s /\ inv_ch3 D /\ (forall r, ~ In r rks -> D r = []) /\ steps_of D = n.
+    exists D, inv_prog D s /\ inv_ch D s /\ inv_ch3 D /\ (forall r, ~ In r rks -> D r = []) /\ steps_of D = n.
+
+  Lemma sentb_spec Da b p : sentb Da b p = true <-> exists m, In (ISend p b m) Da.
+  Proof.
+    unfold sentb. rewrite existsb_exists. split.
+    - intros [x [Hx E]]. destruct x as [l d m|]; [|discriminate]. cbn [is_send] in E. apply andb_true_iff in E. destruct E as [E1 E2].
+      apply Nat.eqb_eq in E1. apply Z.eqb_eq in E2. subst. eauto.
+    - intros [m Hm]. exists (ISend p b m). split; [exact Hm|]. cbn [is_send]. rewrite Nat.eqb_refl, Z.eqb_refl. reflexivity.
+  Qed.
+  Lemma rcvdb_spec Db a p : rcvdb Db a p = true <-> exists nm, In (IRecv p nm a) Db.
+  Proof.
+    unfold rcvdb. rewrite existsb_exists. split.
+    - intros [x [Hx E]]. destruct x as [|l nm q]; [discriminate|]. cbn [is_recv] in E. apply andb_true_iff in E. destruct E as [E1 E2].
+      apply Nat.eqb_eq in E1. apply Z.eqb_eq in E2. subst. eauto.
+    - intros [nm Hm]. exists (IRecv p nm a). split; [exact Hm|]. cbn [is_recv]. rewrite Nat.eqb_refl, Z.eqb_refl. reflexivity.
+  Qed.
+  Lemma sentb_false Da b p : (forall m, ~ In (ISend p b m) Da) -> sentb Da b p = false.
+  Proof. intros H. destruct (sentb Da b p) eqn:E; [|reflexivity]. apply sentb_spec in E. destruct E as [m Hm]. destruct (H m Hm). Qed.
+  Lemma rcvdb_false Db a p : (forall nm, ~ In (IRecv p nm a) Db) -> rcvdb Db a p = false.
+  Proof. intros H. destruct (rcvdb Db a p) eqn:E; [|reflexivity]. apply rcvdb_spec in E. destruct E as [nm Hm]. destruct (H nm Hm). Qed.
 
   Lemma Inv_init : Inv 0 init.
   Proof.
-    exists (fun _ => []). unfold inv_prog, inv_ch1, inv_ch2, inv_ch3, steps_of. repeat split.
+    exists (fun _ => []). split; [|split; [|split; [|split]]].
     - intros r. exists (fun l => srcs r l), (script r (fun l => srcs r l)). split; [intros l _; apply Permutation_refl|]. split; reflexivity.
-    - discriminate.
-    - cbn in H. discriminate.
-    - intros a b l m [].
+    - intros a b t. cbn [init ch]. unfold chan. symmetry. apply flat_map_nil. intros p _. unfold entry, pend. cbn. destruct (tagof p =? t); reflexivity.
     - intros a b l nm [].
-    - generalize rks. intros l0. induction l0 as [|r l0 IH]; [reflexivity|exact IH].
+    - reflexivity.
+    - unfold steps_of. generalize rks. intros l0. induction l0 as [|r l0 IH]; [reflexivity|exact IH].
   Qed.
 
   (* what the invariant says about the next item of a rank *)
@@ -476,102 +546,200 @@ Section Proto.
     - right. assert (Hne : (a', b', t') <> (a, b, t)) by congruence. split; [exact Hne|apply updc_other; exact Hne].
   Qed.
 
-  (* ---- a send preserves the invariant ----------------------------------------------------------------------------------------- *)
-  Lemma Inv_send D s r l d m ord rem k : inv_prog D s -> inv_ch1 D s -> inv_ch2 D s -> inv_ch3 D ->
-    valid r ord -> script r ord = D r ++ ISend l d m :: rem -> pr s r = Do (Send d (tagof l) m) k ->
-    let s' := mkgs (updp (pr s) r (k [])) (updc (ch s) r d (tagof l) (ch s r d (tagof l) ++ [m])) in
-    let D' := updD D r (ISend l d m) in
-    inv_prog D' s' /\ inv_ch1 D' s' /\ inv_ch2 D' s' /\ inv_ch3 D'.
+
+  Lemma sentb_upd D r x a b p : sentb (updD D r x a) b p = sentb (D a) b p || ((a =? r) && is_send b p x).
   Proof.
-    intros Hp H1 H2 H3 Hv Hs Hpr s' D'.
-    assert (Hin : In (ISend l d m) (script r ord)) by (rewrite Hs; apply in_elt).
-    apply script_send_in in Hin. destruct Hin as [Hl Hdm].
-    assert (Hce : ch s r d (tagof l) = []).
-    { destruct (ch s r d (tagof l)) as [|m0 q0] eqn:E; [reflexivity|exfalso].
-      destruct (H1 _ _ _ _ _ E) as [_ [l' [Hl' [Et [Hi _]]]]]. apply (Htag _ _ Hl Hl') in Et. subst l'.
-      exact (script_send_once _ _ _ _ _ _ _ _ Hs Hi). }
+    unfold updD, sentb. destruct (Z.eqb_spec a r) as [->|_]; cbn [andb]; [|rewrite orb_false_r; reflexivity].
+    rewrite existsb_app. cbn [existsb]. rewrite orb_false_r. reflexivity.
+  Qed.
+  Lemma rcvdb_upd D r x b a p : rcvdb (updD D r x b) a p = rcvdb (D b) a p || ((b =? r) && is_recv a p x).
+  Proof.
+    unfold updD, rcvdb. destruct (Z.eqb_spec b r) as [->|_]; cbn [andb]; [|rewrite orb_false_r; reflexivity].
+    rewrite existsb_app. cbn [existsb]. rewrite orb_false_r. reflexivity.
+  Qed.
+
+  Lemma pend_upd_send D r p d m a b p' : ~ (a = r /\ b = d /\ p' = p) -> pend (updD D r (ISend p d m)) a b p' = pend D a b p'.
+  Proof.
+    intros Hne. unfold pend. rewrite sentb_upd, rcvdb_upd. cbn [is_send is_recv]. rewrite andb_false_r, orb_false_r.
+    destruct (Z.eqb_spec a r) as [->|_]; cbn [andb]; [|rewrite orb_false_r; reflexivity].
+    destruct (Nat.eqb_spec p p') as [->|_]; cbn [andb]; [|rewrite orb_false_r; reflexivity].
+    destruct (Z.eqb_spec d b) as [->|_]; [exfalso; apply Hne; auto|rewrite orb_false_r; reflexivity].
+  Qed.
+  Lemma pend_upd_recv D r p nm src a b p' : ~ (a = src /\ b = r /\ p' = p) -> pend (updD D r (IRecv p nm src)) a b p' = pend D a b p'.
+  Proof.
+    intros Hne. unfold pend. rewrite sentb_upd, rcvdb_upd. cbn [is_send is_recv]. rewrite andb_false_r, orb_false_r.
+    destruct (Z.eqb_spec b r) as [->|_]; cbn [andb]; [|rewrite orb_false_r; reflexivity].
+    destruct (Nat.eqb_spec p p') as [->|_]; cbn [andb]; [|rewrite orb_false_r; reflexivity].
+    destruct (Z.eqb_spec src a) as [->|_]; [exfalso; apply Hne; auto|rewrite orb_false_r; reflexivity].
+  Qed.
+
+  Lemma chan_split D a b t p : (p < NL)%nat ->
+    chan D a b t = flat_map (entry D a b t) (seq 0 p) ++ entry D a b t p ++ flat_map (entry D a b t) (seq (S p) (NL - S p)).
+  Proof.
+    intros Hp. unfold chan. replace (seq 0 NL) with (seq 0 p ++ p :: seq (S p) (NL - S p)).
+    - rewrite flat_map_app. reflexivity.
+    - change (p :: seq (S p) (NL - S p)) with (seq p (S (NL - S p))). rewrite <- seq_app. f_equal. lia.
+  Qed.
+
+  (* the head of a non-empty channel: the message of the least pending level *)
+  Lemma chan_head D a b t m q : chan D a b t = m :: q ->
+    exists p, (p < NL)%nat /\ tagof p = t /\ sentb (D a) b p = true /\ rcvdb (D b) a p = false /\ m = wire p a b /\
+              flat_map (entry D a b t) (seq 0 p) = [] /\ q = flat_map (entry D a b t) (seq (S p) (NL - S p)).
+  Proof.
+    unfold chan. intros H. destruct (flat_map_split _ _ [] m q H) as (l1 & p & l2 & a0 & b0 & E1 & E2 & E3 & E4).
+    destruct (seq_split _ _ _ _ _ E1) as [F1 [F2 F3]]. rewrite Nat.sub_0_r in F1. cbn [Nat.add] in F2. subst l1 l2.
+    symmetry in E3. apply app_eq_nil in E3. destruct E3 as [E3 ->]. cbn [app] in E2. exists p. split; [lia|].
+    unfold entry in E2. destruct (Z.eqb_spec (tagof p) t) as [Et|]; [|discriminate]. split; [exact Et|].
+    unfold pend in E2. destruct (sentb (D a) b p) eqn:Es; cbn [andb] in E2; [|discriminate].
+    destruct (rcvdb (D b) a p) eqn:Er; cbn [negb] in E2; [discriminate|]. injection E2 as <- <-. cbn [app] in E4. auto.
+  Qed.
+
+  Lemma D_send_facts D s a b p m : inv_prog D s -> In (ISend p b m) (D a) -> (p < NL)%nat /\ In a (srcs b p) /\ m = wire p a b.
+  Proof.
+    intros Hp Hi. destruct (D_in_script D s a _ Hp Hi) as [ord [_ Hin]]. apply script_send_in in Hin. destruct Hin as [Hl Hin].
+    destruct (Hmatch1 _ _ _ _ Hl Hin). auto.
+  Qed.
+
+  (* ---- a send preserves the invariant ----------------------------------------------------------------------------------------- *)
+  Lemma Inv_send D s r p d m ord rem k : inv_prog D s -> inv_ch D s -> inv_ch3 D ->
+    valid r ord -> script r ord = D r ++ ISend p d m :: rem -> pr s r = Do (Send d (tagof p) m) k ->
+    let s' := mkgs (updp (pr s) r (k [])) (updc (ch s) r d (tagof p) (ch s r d (tagof p) ++ [m])) in
+    let D' := updD D r (ISend p d m) in
+    inv_prog D' s' /\ inv_ch D' s' /\ inv_ch3 D'.
+  Proof.
+    intros Hp Hc H3 Hv Hs Hpr s' D'.
+    assert (Hin : In (ISend p d m) (script r ord)) by (rewrite Hs; apply in_elt).
+    apply script_send_in in Hin. destruct Hin as [Hl Hdm]. destruct (Hmatch1 _ _ _ _ Hl Hdm) as [_ Hm].
     destruct (next_item' D s r _ k ord _ rem Hp Hpr Hv Hs) as [_ Hk]. cbn [reply_of] in Hk.
-    split; [|split; [|split]].
+    assert (Hns : forall m', ~ In (ISend p d m') (D r)) by (intros m'; exact (script_send_once _ _ _ _ _ _ _ m' Hs)).
+    split; [|split].
     - eapply inv_prog_upd; eauto.
-    - intros a b t0 m0 q0 Hc. unfold s' in Hc. cbn [ch] in Hc.
-      destruct (updc_dec (ch s) r d (tagof l) (ch s r d (tagof l) ++ [m]) a b t0) as [[-> [-> [-> E]]]|[Hne E]]; rewrite E in Hc.
-      + rewrite Hce in Hc. cbn [app] in Hc. injection Hc as <- <-. split; [reflexivity|]. exists l. split; [exact Hl|]. split; [reflexivity|].
-        split; [apply updD_in; right; auto|]. intros nm Hn. apply updD_in in Hn. destruct Hn as [Hn|[_ Hn]]; [|discriminate].
-        destruct (H3 _ _ _ _ Hn) as [m1 Hm1]. exact (script_send_once _ _ _ _ _ _ _ _ Hs Hm1).
-      + destruct (H1 _ _ _ _ _ Hc) as [Hq [l0 [Hl0 [Et [Hi Hno]]]]]. split; [exact Hq|]. exists l0. split; [exact Hl0|]. split; [exact Et|].
-        split; [apply updD_in; left; exact Hi|]. intros nm Hn. apply updD_in in Hn. destruct Hn as [Hn|[_ Hn]]; [exact (Hno nm Hn)|discriminate].
-    - intros a b l0 m0 Hi. unfold s'. cbn [ch]. apply updD_in in Hi. destruct Hi as [Hi|[-> Hi]].
-      + destruct (H2 _ _ _ _ Hi) as [[nm Hn]|Hc]; [left; exists nm; apply updD_in; left; exact Hn|]. right.
-        destruct (updc_dec (ch s) r d (tagof l) (ch s r d (tagof l) ++ [m]) a b (tagof l0)) as [[-> [-> [Et E]]]|[Hne E]]; rewrite E; [|exact Hc].
-        rewrite Et, Hce in Hc. discriminate.
-      + injection Hi as -> -> ->. right. rewrite updc_same, Hce. reflexivity.
+    - intros a b t. unfold s'. cbn [ch].
+      destruct (updc_dec (ch s) r d (tagof p) (ch s r d (tagof p) ++ [m]) a b t) as [[-> [-> [-> E]]]|[Hne E]]; rewrite E.
+      + rewrite (Hc r d (tagof p)). rewrite !(chan_split _ r d (tagof p) p Hl).
+        assert (Elo : flat_map (entry D' r d (tagof p)) (seq 0 p) = flat_map (entry D r d (tagof p)) (seq 0 p)).
+        { apply flat_map_ext_in. intros p' Hp'. apply in_seq in Hp'. unfold entry, D'. rewrite pend_upd_send by lia. reflexivity. }
+        assert (Ehi : forall DD, (DD = D \/ DD = D') -> flat_map (entry DD r d (tagof p)) (seq (S p) (NL - S p)) = []).
+        { intros DD HDD. apply flat_map_nil. intros p' Hp'. apply in_seq in Hp'. unfold entry. destruct (tagof p' =? tagof p); [|reflexivity].
+          assert (E0 : pend D r d p' = []).
+          { unfold pend. rewrite sentb_false; [reflexivity|]. intros m' Hi. pose proof (script_prefix_levels _ _ _ _ _ _ Hs Hi) as Hle. cbn [lev] in Hle. lia. }
+          destruct HDD as [->| ->]; [exact E0|]. unfold D'. rewrite pend_upd_send by lia. exact E0. }
+        rewrite (Ehi D (or_introl eq_refl)), (Ehi D' (or_intror eq_refl)), Elo.
+        assert (E1 : entry D r d (tagof p) p = []).
+        { unfold entry, pend. rewrite (sentb_false (D r) d p Hns). destruct (tagof p =? tagof p); reflexivity. }
+        assert (E2 : entry D' r d (tagof p) p = [m]).
+        { unfold entry, pend, D'. rewrite Z.eqb_refl, sentb_upd, rcvdb_upd. cbn [is_send is_recv]. rewrite !Z.eqb_refl, Nat.eqb_refl, andb_false_r, orb_false_r.
+          cbn [andb]. rewrite orb_true_r. rewrite rcvdb_false; [cbn [negb andb]; rewrite Hm; reflexivity|].
+          intros nm Hn. destruct (H3 _ _ _ _ Hn) as [m1 Hm1]. exact (Hns m1 Hm1). }
+        rewrite E1, E2, !app_nil_r. reflexivity.
+      + rewrite (Hc a b t). unfold chan. apply flat_map_ext_in. intros p' Hp'. unfold entry.
+        destruct (Z.eqb_spec (tagof p') t) as [Et|]; [|reflexivity]. unfold D'. rewrite pend_upd_send; [reflexivity|].
+        intros [-> [-> ->]]. apply Hne. rewrite Et. reflexivity.
     - intros a b l0 nm Hn. apply updD_in in Hn. destruct Hn as [Hn|[_ Hn]]; [|discriminate].
       destruct (H3 _ _ _ _ Hn) as [m1 Hm1]. exists m1. apply updD_in. left. exact Hm1.
   Qed.
 
-  (* ---- a receive (named or wildcard) that matches source src preserves the invariant -------------------------------------------- *)
-  Lemma Inv_recv D s r l nm src ord rem a k t m q : inv_prog D s -> inv_ch1 D s -> inv_ch2 D s -> inv_ch3 D ->
-    valid r ord -> script r ord = D r ++ IRecv l nm src :: rem -> pr s r = Do a k -> t = tagof l -> ch s src r t = m :: q ->
-    let s' := mkgs (updp (pr s) r (k (src :: m))) (updc (ch s) src r t q) in
-    let D' := updD D r (IRecv l nm src) in
-    inv_prog D' s' /\ inv_ch1 D' s' /\ inv_ch2 D' s' /\ inv_ch3 D'.
+  (* ---- the message at the head of a channel is the one the receiver's current level waits for ---------------------------------- *)
+  Lemma head_level D s r ord p nm q0 rem src m q : inv_prog D s ->
+    valid r ord -> script r ord = D r ++ IRecv p nm q0 :: rem -> (nm = true -> q0 = src) ->
+    chan D src r (tagof p) = m :: q ->
+    sentb (D src) r p = true /\ rcvdb (D r) src p = false /\ m = wire p src r /\ In src (srcs r p) /\
+    flat_map (entry D src r (tagof p)) (seq 0 p) = [] /\ q = flat_map (entry D src r (tagof p)) (seq (S p) (NL - S p)).
   Proof.
-    intros Hp H1 H2 H3 Hv Hs Hpr -> Hch s' D'.
-    assert (Hin : In (IRecv l nm src) (script r ord)) by (rewrite Hs; apply in_elt).
+    intros Hp Hv Hs Hnm Hch.
+    assert (Hin : In (IRecv p nm q0) (script r ord)) by (rewrite Hs; apply in_elt).
+    apply script_recv_in in Hin. destruct Hin as [Hl Hq0].
+    destruct (chan_head D src r (tagof p) m q Hch) as [p' [Hl' [Et [Hsent [Hrcv [Hm [Hlo Hhi]]]]]]].
+    apply sentb_spec in Hsent. destruct Hsent as [m' Hsent]. destruct (D_send_facts D s src r p' m' Hp Hsent) as [_ [Hsrc' _]].
+    assert (Hpp : p' = p).
+    { destruct (lt_eq_lt_dec p' p) as [[Hlt|E]|Hgt]; [exfalso|exact E|exfalso].
+      - (* an earlier level of r is complete: its message from src has been received *)
+        apply (valid_in r ord p' src Hv Hl') in Hsrc'. destruct (script_recv_conv r ord p' src Hl' Hsrc') as [nm' Hn'].
+        pose proof (script_level_done _ _ _ _ _ _ Hs Hn' Hlt) as Hd. assert (E : rcvdb (D r) src p' = true) by (apply rcvdb_spec; eauto). congruence.
+      - (* a later level with the same tag: then src has sent its message of level p as well, and r has not received it *)
+        destruct (Hcompat r p p' Hgt Hl' (eq_sym Et)) as [Hsub Hfirst].
+        pose proof (Hsub src Hsrc') as Hsrcp. pose proof (Hmatch2 r p src Hl Hsrcp) as Hsd.
+        destruct (Hp src) as [ords [rems [Hvs [Hss _]]]].
+        assert (Hi : In (ISend p r (wire p src r)) (script src ords)) by (apply script_send_in; auto).
+        rewrite Hss in Hi. apply in_app_iff in Hi. destruct Hi as [Hi|Hi].
+        + assert (E1 : sentb (D src) r p = true) by (apply sentb_spec; eauto).
+          assert (E2 : rcvdb (D r) src p = false).
+          { apply rcvdb_false. intros nm' Hn'. destruct nm.
+            - rewrite (Hnm eq_refl) in Hs. exact (script_recv_once _ _ _ _ _ _ _ nm' Hv Hs Hn').
+            - exact (script_first_recv _ _ _ _ _ _ Hs Hfirst nm' src Hn'). }
+          assert (E3 : entry D src r (tagof p) p <> []) by (unfold entry, pend; rewrite Z.eqb_refl, E1, E2; discriminate).
+          apply E3. assert (Hz : forall x, In x (seq 0 p') -> entry D src r (tagof p) x = []).
+          { clear -Hlo. induction (seq 0 p') as [|x l IH]; intros y Hy; [contradiction|]. cbn [flat_map] in Hlo. apply app_eq_nil in Hlo.
+            destruct Hy as [<-|Hy]; [tauto|apply IH; tauto]. }
+          apply Hz. apply in_seq. lia.
+        + destruct rems as [|y rems]; [contradiction|].
+          destruct (script_order src ords (D src) y rems p r _ Hss Hi) as [Hle _].
+          pose proof (script_prefix_levels _ _ _ _ _ _ Hss Hsent) as Hle'. cbn [lev] in Hle'. lia. }
+    subst p'. split; [apply sentb_spec; eauto|]. repeat split; assumption.
+  Qed.
+
+  (* ---- a receive (named or wildcard) that matches source src preserves the invariant -------------------------------------------- *)
+  Lemma Inv_recv D s r p nm src ord rem a k m q : inv_prog D s -> inv_ch D s -> inv_ch3 D ->
+    valid r ord -> script r ord = D r ++ IRecv p nm src :: rem -> pr s r = Do a k ->
+    sentb (D src) r p = true -> m = wire p src r ->
+    flat_map (entry D src r (tagof p)) (seq 0 p) = [] -> q = flat_map (entry D src r (tagof p)) (seq (S p) (NL - S p)) ->
+    let s' := mkgs (updp (pr s) r (k (src :: m))) (updc (ch s) src r (tagof p) q) in
+    let D' := updD D r (IRecv p nm src) in
+    inv_prog D' s' /\ inv_ch D' s' /\ inv_ch3 D'.
+  Proof.
+    intros Hp Hc H3 Hv Hs Hpr Hsent Hm Hlo Hhi s' D'.
+    assert (Hin : In (IRecv p nm src) (script r ord)) by (rewrite Hs; apply in_elt).
     apply script_recv_in in Hin. destruct Hin as [Hl Hq].
-    destruct (H1 _ _ _ _ _ Hch) as [-> [l' [Hl' [Et [Hi Hno]]]]]. apply (Htag _ _ Hl Hl') in Et. subst l'.
-    assert (Hm : m = wire l src r).
-    { destruct (D_in_script D s src _ Hp Hi) as [ord1 [Hv1 Hi1]]. apply script_send_in in Hi1. destruct Hi1 as [_ Hi1].
-      exact (proj2 (Hmatch1 _ _ _ _ Hl Hi1)). }
     destruct (next_item' D s r _ k ord _ rem Hp Hpr Hv Hs) as [_ Hk]. cbn [reply_of] in Hk. rewrite <- Hm in Hk.
-    split; [|split; [|split]].
+    split; [|split].
     - eapply inv_prog_upd; eauto.
-    - intros a0 b t0 m0 q0 Hc. unfold s' in Hc. cbn [ch] in Hc.
-      destruct (updc_dec (ch s) src r (tagof l) [] a0 b t0) as [[-> [-> [-> E]]]|[Hne E]]; rewrite E in Hc; [discriminate|].
-      destruct (H1 _ _ _ _ _ Hc) as [Hq0 [l0 [Hl0 [Et [Hi0 Hno0]]]]]. split; [exact Hq0|]. exists l0. split; [exact Hl0|]. split; [exact Et|].
-      split; [apply updD_in; left; exact Hi0|]. intros nm0 Hn. apply updD_in in Hn. destruct Hn as [Hn|[-> Hn]]; [exact (Hno0 nm0 Hn)|].
-      injection Hn as -> _ ->. apply Hne. rewrite Et. reflexivity.
-    - intros a0 b l0 m0 Hi0. unfold s'. cbn [ch]. apply updD_in in Hi0. destruct Hi0 as [Hi0|[_ Hi0]]; [|discriminate].
-      destruct (H2 _ _ _ _ Hi0) as [[nm0 Hn]|Hc]; [left; exists nm0; apply updD_in; left; exact Hn|].
-      destruct (updc_dec (ch s) src r (tagof l) [] a0 b (tagof l0)) as [[-> [-> [Et E]]]|[Hne E]].
-      + left. exists nm. apply updD_in. right. split; [reflexivity|].
-        assert (Hl0 : (l0 < NL)%nat). { destruct (D_in_script D s src _ Hp Hi0) as [ord1 [_ Hi1]]. apply script_send_in in Hi1. tauto. }
-        apply (Htag _ _ Hl0 Hl) in Et. subst l0. reflexivity.
-      + right. rewrite E. exact Hc.
+    - intros a0 b t. unfold s'. cbn [ch].
+      destruct (updc_dec (ch s) src r (tagof p) q a0 b t) as [[-> [-> [-> E]]]|[Hne E]]; rewrite E.
+      + rewrite (chan_split _ src r (tagof p) p Hl).
+        assert (Elo : flat_map (entry D' src r (tagof p)) (seq 0 p) = []).
+        { rewrite <- Hlo. apply flat_map_ext_in. intros p' Hp'. apply in_seq in Hp'. unfold entry, D'. rewrite pend_upd_recv by lia. reflexivity. }
+        assert (Ehi : flat_map (entry D' src r (tagof p)) (seq (S p) (NL - S p)) = q).
+        { rewrite Hhi. apply flat_map_ext_in. intros p' Hp'. apply in_seq in Hp'. unfold entry, D'. rewrite pend_upd_recv by lia. reflexivity. }
+        assert (E1 : entry D' src r (tagof p) p = []).
+        { unfold entry, pend, D'. rewrite rcvdb_upd. cbn [is_recv]. rewrite !Z.eqb_refl, Nat.eqb_refl. cbn [andb]. rewrite orb_true_r. cbn [negb].
+          rewrite andb_false_r. destruct (tagof p =? tagof p); reflexivity. }
+        rewrite Elo, Ehi, E1. reflexivity.
+      + rewrite (Hc a0 b t). unfold chan. apply flat_map_ext_in. intros p' Hp'. unfold entry.
+        destruct (Z.eqb_spec (tagof p') t) as [Et|]; [|reflexivity]. unfold D'. rewrite pend_upd_recv; [reflexivity|].
+        intros [-> [-> ->]]. apply Hne. rewrite Et. reflexivity.
     - intros a0 b l0 nm0 Hn. apply updD_in in Hn. destruct Hn as [Hn|[-> Hn]].
       + destruct (H3 _ _ _ _ Hn) as [m1 Hm1]. exists m1. apply updD_in. left. exact Hm1.
-      + injection Hn as -> _ ->. exists m. apply updD_in. left. exact Hi.
+      + injection Hn as -> _ ->. apply sentb_spec in Hsent. destruct Hsent as [m1 Hm1]. exists m1. apply updD_in. left. exact Hm1.
   Qed.
 
   Lemma Inv_step n s r s' : Inv n s -> step_a s r s' -> Inv (S n) s'.
   Proof.
-    intros [D [Hp [H1 [H2 [H3 [Ho Hn]]]]]] Hstep.
+    intros [D [Hp [Hc [H3 [Ho Hn]]]]] Hstep.
     inversion Hstep as [? ? d t m k Hpr|? ? src t k m q Hs0 Hpr Hch|? ? src t k m q Hpr Hch]; subst.
     - pose proof (rank_in_rks D s r _ _ Hp Hpr) as Hr.
       destruct (next_item D s r _ _ Hp Hpr) as [ord [x [rem [Hv [Hs [Ha _]]]]]].
       destruct x as [l d' m'|l nm q]; cbn [act_of] in Ha; [|discriminate]. injection Ha as Ed Et Em. subst d' t m'.
-      destruct (Inv_send D s r l d m ord rem k Hp H1 H2 H3 Hv Hs Hpr) as [A [B [C E]]].
-      exists (updD D r (ISend l d m)). split; [exact A|]. split; [exact B|]. split; [exact C|]. split; [exact E|]. split; [apply out_upd; assumption|apply steps_upd; exact Hr].
+      destruct (Inv_send D s r l d m ord rem k Hp Hc H3 Hv Hs Hpr) as [A [B E]].
+      exists (updD D r (ISend l d m)). split; [exact A|]. split; [exact B|]. split; [exact E|]. split; [apply out_upd; assumption|apply steps_upd; exact Hr].
     - pose proof (rank_in_rks D s r _ _ Hp Hpr) as Hr.
       destruct (next_item D s r _ _ Hp Hpr) as [ord [x [rem [Hv [Hs [Ha _]]]]]].
       destruct x as [l d' m'|l nm q0]; cbn [act_of] in Ha; [discriminate|]. injection Ha as Es Et.
-      destruct nm; [subst q0|unfold ANY in Es; lia].
-      destruct (Inv_recv D s r l true src ord rem _ k t m q Hp H1 H2 H3 Hv Hs Hpr Et Hch) as [A [B [C E]]].
-      exists (updD D r (IRecv l true src)). split; [exact A|]. split; [exact B|]. split; [exact C|]. split; [exact E|]. split; [apply out_upd; assumption|apply steps_upd; exact Hr].
+      destruct nm; [subst q0|unfold ANY in Es; lia]. subst t. rewrite (Hc src r (tagof l)) in Hch.
+      destruct (head_level D s r ord l true src rem src m q Hp Hv Hs (fun _ => eq_refl) Hch) as [A1 [A2 [A3 [A4 [A5 A6]]]]].
+      destruct (Inv_recv D s r l true src ord rem _ k m q Hp Hc H3 Hv Hs Hpr A1 A3 A5 A6) as [A [B E]].
+      exists (updD D r (IRecv l true src)). split; [exact A|]. split; [exact B|]. split; [exact E|]. split; [apply out_upd; assumption|apply steps_upd; exact Hr].
     - pose proof (rank_in_rks D s r _ _ Hp Hpr) as Hr.
       destruct (next_item D s r _ _ Hp Hpr) as [ord [x [rem [Hv [Hs [Ha _]]]]]].
       destruct x as [l d' m'|l nm q0]; cbn [act_of] in Ha; [discriminate|]. injection Ha as Es Et.
       assert (Hin : In (IRecv l nm q0) (script r ord)) by (rewrite Hs; apply in_elt).
       apply script_recv_in in Hin. destruct Hin as [Hl Hq0]. apply (valid_in r ord l q0 Hv Hl) in Hq0.
-      destruct nm; [pose proof (Hsrc0 r l q0 Hl Hq0); unfold ANY in Es; lia|].
-      (* the matched source is a source of the level that has not been matched before *)
-      destruct (H1 _ _ _ _ _ Hch) as [_ [l' [Hl' [Et' [Hi Hno]]]]]. rewrite Et in Et'. apply (Htag _ _ Hl Hl') in Et'. subst l'.
-      assert (Hsl : In src (srcs r l)).
-      { destruct (D_in_script D s src _ Hp Hi) as [ord1 [Hv1 Hi1]]. apply script_send_in in Hi1. destruct Hi1 as [_ Hi1].
-        exact (proj1 (Hmatch1 _ _ _ _ Hl Hi1)). }
-      destruct (reorder r ord (D r) l q0 rem src Hv Hs Hsl Hno) as [ord' [rem' [Hv' Hs']]].
-      destruct (Inv_recv D s r l false src ord' rem' _ k t m q Hp H1 H2 H3 Hv' Hs' Hpr Et Hch) as [A [B [C E]]].
-      exists (updD D r (IRecv l false src)). split; [exact A|]. split; [exact B|]. split; [exact C|]. split; [exact E|]. split; [apply out_upd; assumption|apply steps_upd; exact Hr].
+      destruct nm; [pose proof (Hsrc0 r l q0 Hl Hq0); unfold ANY in Es; lia|]. subst t. rewrite (Hc src r (tagof l)) in Hch.
+      destruct (head_level D s r ord l false q0 rem src m q Hp Hv Hs ltac:(discriminate) Hch) as [A1 [A2 [A3 [A4 [A5 A6]]]]].
+      assert (Hno : forall nm, ~ In (IRecv l nm src) (D r)).
+      { intros nm Hn. assert (E : rcvdb (D r) src l = true) by (apply rcvdb_spec; eauto). congruence. }
+      destruct (reorder r ord (D r) l q0 rem src Hv Hs A4 Hno) as [ord' [rem' [Hv' Hs']]].
+      destruct (Inv_recv D s r l false src ord' rem' _ k m q Hp Hc H3 Hv' Hs' Hpr A1 A3 A5 A6) as [A [B E]].
+      exists (updD D r (IRecv l false src)). split; [exact A|]. split; [exact B|]. split; [exact E|]. split; [apply out_upd; assumption|apply steps_upd; exact Hr].
   Qed.
 
   Lemma Inv_run : forall n s0 s m, Inv m s0 -> run_a n s0 s -> Inv (m + n) s.
@@ -594,29 +762,30 @@ Section Proto.
 
   Lemma Inv_bound n s : Inv n s -> (n <= total_len)%nat.
   Proof.
-    intros [D [Hp [_ [_ [_ [_ Hn]]]]]]. rewrite <- Hn. unfold steps_of, total_len. apply list_sum_le. intros r _.
+    intros [D [Hp [_ [_ [_ Hn]]]]]. rewrite <- Hn. unfold steps_of, total_len. apply list_sum_le. intros r _.
     destruct (Hp r) as [ord [rem [Hv [Hs _]]]]. rewrite <- (script_length r ord Hv), Hs, app_length. lia.
   Qed.
 
   Lemma Inv_final n s : Inv n s -> final s ->
     (forall r, pr s r = Ret (out r)) /\ (forall a b t, ch s a b t = []) /\ n = total_len.
   Proof.
-    intros [D [Hp [H1 [_ [_ [_ Hn]]]]]] Hf.
+    intros [D [Hp [Hc [_ [_ Hn]]]]] Hf.
     assert (Hall : forall r, pr s r = Ret (out r) /\ exists ord, valid r ord /\ script r ord = D r).
     { intros r. destruct (rank_state D s r Hp) as [H|[ord [x [rem [_ [_ [k Hk]]]]]]]; [exact H|]. destruct (Hf r) as [o Ho]. congruence. }
     split; [intros r; apply Hall|]. split.
-    - intros a b t. destruct (ch s a b t) as [|m q] eqn:E; [reflexivity|exfalso].
-      destruct (H1 _ _ _ _ _ E) as [_ [l [Hl [_ [Hi Hno]]]]].
-      destruct (Hall a) as [_ [orda [Hva Hsa]]]. destruct (Hall b) as [_ [ordb [Hvb Hsb]]].
-      rewrite <- Hsa in Hi. apply script_send_in in Hi. destruct Hi as [_ Hi]. destruct (Hmatch1 _ _ _ _ Hl Hi) as [Hab _].
-      apply (valid_in b ordb l a Hvb Hl) in Hab. destruct (script_recv_conv b ordb l a Hl Hab) as [nm Hnm]. rewrite Hsb in Hnm. exact (Hno nm Hnm).
+    - intros a b t. rewrite (Hc a b t). unfold chan. apply flat_map_nil. intros p Hp'. apply in_seq in Hp'. unfold entry, pend.
+      destruct (tagof p =? t); [|reflexivity]. destruct (sentb (D a) b p) eqn:Es; [|reflexivity]. cbn [andb].
+      apply sentb_spec in Es. destruct Es as [m Hi]. destruct (D_send_facts D s a b p m Hp Hi) as [Hl [Hab _]].
+      destruct (Hall b) as [_ [ordb [Hvb Hsb]]]. apply (valid_in b ordb p a Hvb Hl) in Hab.
+      destruct (script_recv_conv b ordb p a Hl Hab) as [nm Hnm]. rewrite Hsb in Hnm.
+      assert (E : rcvdb (D b) a p = true) by (apply rcvdb_spec; eauto). rewrite E. reflexivity.
     - rewrite <- Hn. unfold steps_of, total_len. f_equal. apply map_ext. intros r. destruct (Hall r) as [_ [ord [Hv Hs]]].
       rewrite <- Hs. apply script_length. exact Hv.
   Qed.
 
   Lemma Inv_complete n s : Inv n s -> n = total_len -> final s.
   Proof.
-    intros [D [Hp [_ [_ [_ [Ho Hn]]]]]] E r.
+    intros [D [Hp [_ [_ [Ho Hn]]]]] E r.
     destruct (rank_state D s r Hp) as [[H _]|[ord [x [rem [Hv [Hs _]]]]]]; [eauto|exfalso].
     assert (Hlen : forall r0, (length (D r0) <= len r0)%nat).
     { intros r0. destruct (Hp r0) as [ord0 [rem0 [Hv0 [Hs0 _]]]]. rewrite <- (script_length r0 ord0 Hv0), Hs0, app_length. lia. }
@@ -630,7 +799,7 @@ Section Proto.
   (* PROGRESS: the rank whose next item has the least level can move, or the source it waits for can *)
   Lemma Inv_progress n s : Inv n s -> final s \/ can_step s.
   Proof.
-    intros [D [Hp [H1 [H2 [H3 [Ho Hn]]]]]].
+    intros [D [Hp [Hc [H3 [Ho Hn]]]]].
     assert (Hdec : (forall r, In r rks -> exists o, pr s r = Ret o) \/ (exists r a k, pr s r = Do a k)).
     { generalize rks. intros l0. induction l0 as [|r l0 IH]; [left; intros r []|].
       destruct IH as [IH|IH]; [|right; exact IH]. destruct (pr s r) as [o|a k] eqn:E; [|right; eauto].
@@ -640,6 +809,11 @@ Section Proto.
       destruct (In_dec Z.eq_dec r rks) as [Hr|Hr]; [destruct (Hall r Hr) as [o Hor]; congruence|].
       rewrite (script_out r ord Hr Hv) in Hs. destruct (D r); discriminate.
     - right.
+      (* a sent and not yet received message makes its channel non-empty *)
+      assert (Hne : forall q r0 l, (l < NL)%nat -> sentb (D q) r0 l = true -> rcvdb (D r0) q l = false -> exists m' q', ch s q r0 (tagof l) = m' :: q').
+      { intros q r0 l Hl E1 E2. rewrite (Hc q r0 (tagof l)), (chan_split D q r0 (tagof l) l Hl).
+        assert (E : entry D q r0 (tagof l) l = [wire l q r0]) by (unfold entry, pend; rewrite Z.eqb_refl, E1, E2; reflexivity). rewrite E.
+        destruct (flat_map (entry D q r0 (tagof l)) (seq 0 l)) as [|m' q']; cbn [app]; eauto. }
       assert (Hgen : forall L r ord x rem k, lev x = L -> valid r ord -> script r ord = D r ++ x :: rem -> pr s r = Do (act_of x) k -> can_step s).
       { clear r a k Hpr. induction L as [L IH] using lt_wf_ind. intros r ord x rem k HL Hv Hs Hpr.
         destruct x as [l d m|l nm q]; cbn [act_of lev] in *.
@@ -647,19 +821,18 @@ Section Proto.
         - subst L. assert (Hin : In (IRecv l nm q) (script r ord)) by (rewrite Hs; apply in_elt).
           apply script_recv_in in Hin. destruct Hin as [Hl Hq]. apply (valid_in r ord l q Hv Hl) in Hq.
           pose proof (Hmatch2 r l q Hl Hq) as Hsd.
+          assert (Hnr : rcvdb (D r) q l = false) by (apply rcvdb_false; intros nm' Hn'; exact (script_recv_once _ _ _ _ _ _ _ nm' Hv Hs Hn')).
+          assert (Hgo : sentb (D q) r l = true -> can_step s).
+          { intros E1. destruct (Hne q r l Hl E1 Hnr) as [m' [q' Hch]]. exists r. eexists.
+            destruct nm; [eapply stepa_recv; [exact (Hsrc0 r l q Hl Hq)|exact Hpr|exact Hch]|eapply stepa_any; [exact Hpr|exact Hch]]. }
           destruct (rank_state D s q Hp) as [[_ [ordq [Hvq Hsq]]]|[ordq [y [remq [Hvq [Hsq [kq Hkq]]]]]]].
-          + (* q has finished: the message is in the channel *)
-            assert (Hi : In (ISend l r (wire l q r)) (D q)) by (rewrite <- Hsq; apply script_send_in; auto).
-            destruct (H2 _ _ _ _ Hi) as [[nm' Hn']|Hc]; [exfalso; exact (script_recv_once _ _ _ _ _ _ _ nm' Hv Hs Hn')|].
-            exists r. eexists. destruct nm; [eapply stepa_recv; [exact (Hsrc0 r l q Hl Hq)|exact Hpr|exact Hc]|eapply stepa_any; [exact Hpr|exact Hc]].
+          + apply Hgo. apply sentb_spec. exists (wire l q r). rewrite <- Hsq. apply script_send_in. auto.
           + assert (Hi : In (ISend l r (wire l q r)) (script q ordq)) by (apply script_send_in; auto).
-            rewrite Hsq in Hi. apply in_app_iff in Hi. destruct Hi as [Hi|Hi].
-            * destruct (H2 _ _ _ _ Hi) as [[nm' Hn']|Hc]; [exfalso; exact (script_recv_once _ _ _ _ _ _ _ nm' Hv Hs Hn')|].
-              exists r. eexists. destruct nm; [eapply stepa_recv; [exact (Hsrc0 r l q Hl Hq)|exact Hpr|exact Hc]|eapply stepa_any; [exact Hpr|exact Hc]].
-            * destruct (script_order q ordq (D q) y remq l r _ Hsq Hi) as [Hle Heq].
-              destruct (Nat.eq_dec (lev y) l) as [Ey|Ey].
-              -- destruct (Heq Ey) as [d' [m' ->]]. exists q. eexists. apply stepa_send. exact Hkq.
-              -- apply (IH (lev y) ltac:(lia) q ordq y remq kq eq_refl Hvq Hsq Hkq). }
+            rewrite Hsq in Hi. apply in_app_iff in Hi. destruct Hi as [Hi|Hi]; [apply Hgo; apply sentb_spec; eauto|].
+            destruct (script_order q ordq (D q) y remq l r _ Hsq Hi) as [Hle Heq].
+            destruct (Nat.eq_dec (lev y) l) as [Ey|Ey].
+            * destruct (Heq Ey) as [d' [m' ->]]. exists q. eexists. apply stepa_send. exact Hkq.
+            * apply (IH (lev y) ltac:(lia) q ordq y remq kq eq_refl Hvq Hsq Hkq). }
       destruct (next_item D s r _ _ Hp Hpr) as [ord [x [rem [Hv [Hs [Ha _]]]]]].
       apply (Hgen (lev x) r ord x rem k eq_refl Hv Hs). rewrite <- Ha. exact Hpr.
   Qed.
@@ -690,3 +863,10 @@ Section Proto.
         * exists s'. split; [econstructor; eassumption|exact Hf'].
   Qed.
 End Proto.
+
+(* pairwise distinct tags satisfy the compatibility condition *)
+Lemma compat_of_injective (NL : nat) (tagof : nat -> Z) (srcs : Z -> nat -> list Z) (named : Z -> nat -> nat -> bool) :
+  (forall l1 l2, (l1 < NL)%nat -> (l2 < NL)%nat -> tagof l1 = tagof l2 -> l1 = l2) ->
+  forall r p p', (p < p')%nat -> (p' < NL)%nat -> tagof p = tagof p' ->
+    (forall q, In q (srcs r p') -> In q (srcs r p)) /\ (forall i, named r p i = false -> i = 0%nat).
+Proof. intros Hinj r p p' Hlt Hl E. apply Hinj in E; lia. Qed.
